@@ -24,6 +24,7 @@ use vharness::common::*;
 
 include!("../c14_queries.rs");
 include!("../c14_observed.rs");
+include!("../c14_clauses.rs");
 
 static PANICS: AtomicUsize = AtomicUsize::new(0);
 static LAST_PANIC: Mutex<String> = Mutex::new(String::new());
@@ -197,6 +198,15 @@ impl Mutation {
 
 const STRINGS: [&str; 6] = ["hello world!", "AAAA", "1234", "[1, 2]", "{", ""];
 fn gen_string(rng: &mut Rng, ctx: &UidCtx, want: Option<FT>) -> String {
+    // a third of the values are long (up to 300 bytes) with multi-byte characters at every offset:
+    // accepted ones (text, JSON text, long base64) and refused ones (for base64 / JSON / other types)
+    if rng.chance(1, 3) {
+        return match (want, rng.below(4)) {
+            (Some(FT::Base64), 0..=1) => long_b64(rng),
+            (Some(FT::Json), 0..=1) => format!("[\"{}\"]", mb_string(rng)),
+            _ => mb_string(rng),
+        };
+    }
     match (want, rng.below(10)) {
         (Some(FT::Base64), 0..=5) => "AAAA".into(),
         (Some(FT::Json), 0..=5) => (*rng.pick(&["[1, 2]", "1234", "{}", "true"])).to_string(),
@@ -500,6 +510,8 @@ async fn main() {
 
     // ---- queries (stream a) and statement sizes
     query_streams(&mut rng, &mut out, &mut stats).await;
+    // ---- the clause language on one entity, parameters of every class and length; deletions
+    clause_streams(&mut rng, &mut out, &mut stats).await;
     // ---- streams without a model verdict (b, d ingestion, e)
     observed_streams(&mut rng, &mut out, &mut stats).await;
 
